@@ -14,7 +14,7 @@ pub fn prop() -> Prop {
     Prop {
         id: "C07",
         level: "exploration",
-        rule: "(1) every expression tree of depth <= D over the 13 infix operators and `=` with leaves {a, 1} printed with minimal parentheses from the documented precedence table; (2) calls, indexing and prefix operators in every operand position of every operator; (2b) `als`, `zolang` and `functie` expressions without parentheses as the left and right operand of every operator and (function literals) as the target of a call, in 16 statement and expression contexts (an expression does not end at its closing brace); (2c) length ladders: chains of N operands (one operator; two alternating levels), N elements / arguments / statements, N-deep parentheses, prefix operators, parenthesised assignments and else-if chains, N around every power of two up to 1025 (8193 thorough; deep forms up to 300); (3) every statement tree of the ctrl/fun/mix/heap slices up to N nodes, plain and with `anders als` / `op=` sugar; (4) every `a op= e` for e of depth <= 2 and every else-if chain up to length 3; (5) layout: for a base set of programs every rendering that changes <= d gaps to each alternative separator (each of the 11 white-space code points, a line comment, nothing where maximal munch allows, optional `;` and `,` dropped) and every single redundant parenthesisation. Oracle: the tree returned by the real parser equals the generated tree. Non-trivial = the rendering differs from the default rendering of a smaller case or contains at least two operators/constructs; distinct = distinct texts",
+        rule: "(1) every expression tree of depth <= D over the 13 infix operators and `=` with leaves {a, 1} printed with minimal parentheses from the documented precedence table; (2) calls, indexing and prefix operators in every operand position of every operator; (2b) `als`, `zolang` and `functie` expressions without parentheses as the left and right operand of every operator and (function literals) as the target of a call, in 16 statement and expression contexts (an expression does not end at its closing brace); (2c) length ladders: N blocks / branches / loops / function definitions / parenthesised, bracketed and call expressions one AFTER the other, chains of N operands (one operator; two alternating levels), N elements / arguments / statements, N-deep parentheses, prefix operators, parenthesised assignments and else-if chains, N around every power of two up to 1025 (8193 thorough; deep forms up to 300); (3) every statement tree of the ctrl/fun/mix/heap slices up to N nodes, plain and with `anders als` / `op=` sugar; (4) every `a op= e` for e of depth <= 2 and every else-if chain up to length 3; (5) layout: for a base set of programs every rendering that changes <= d gaps to each alternative separator (each of the 11 white-space code points, a line comment, nothing where maximal munch allows, optional `;` and `,` dropped) and every single redundant parenthesisation. Oracle: the tree returned by the real parser equals the generated tree. Non-trivial = the rendering differs from the default rendering of a smaller case or contains at least two operators/constructs; distinct = distinct texts",
         assumptions: &[
             "the printer's precedence table (printer::prec) is the documented one: * / % > + - > < <= > >= > == != > && || > =",
             "prefix operands are always parenthesised unless atomic (U13)",
@@ -587,6 +587,23 @@ fn chain_ladder(sh: &mut Shard) {
         let stmts: Vec<Stmt> = elems.iter().cloned().map(es).collect();
         case(sh, "chain-ladder", &etext.join(" ; "), &stmts, true);
         case(sh, "chain-ladder", &format!("{{ {} }}", etext.join(" ; ")), &[Stmt::Block(stmts.clone())], true);
+        // N constructs ONE AFTER THE OTHER (not nested): whatever the parser counts while it is inside a block
+        // must be given back when the block ends
+        {
+            let seq = |one_text: &str, one: Stmt| -> (String, Vec<Stmt>) { (vec![one_text; n].join(" "), vec![one; n]) };
+            for (t, st) in [
+                seq("{ a }", Stmt::Block(vec![es(id("a"))])),
+                seq("als a { 1 }", es(iff(id("a"), vec![es(int(1))], None))),
+                seq("als a { 1 } anders { 2 }", es(iff(id("a"), vec![es(int(1))], Some(vec![es(int(2))])))),
+                seq("zolang a { stop }", es(whil(id("a"), vec![Stmt::Break]))),
+                seq("functie g ( x ) { x }", es(func("g", &["x"], vec![es(id("x"))]))),
+                seq("( a ) ;", es(id("a"))),
+                seq("[ [ a ] ] ;", es(array(vec![array(vec![id("a")])]))),
+                seq("f ( g ( a ) ) ;", es(calln("f", vec![calln("g", vec![id("a")])]))),
+            ] {
+                case(sh, "chain-ladder", &t, &st, true);
+            }
+        }
         // deep (inside the parser's nesting limit)
         if n <= 300 {
             case_or_too_deep(sh, "chain-ladder", &format!("{}a{}", "( ".repeat(n), " )".repeat(n)), &[es(id("a"))], n > 240);
